@@ -1,0 +1,20 @@
+//go:build verif
+
+package formatter
+
+// Contracts for the govc verification-condition generator (/verif/DESIGN.md section 3.4).
+// This file is compiled only with the build tag "verif"; every contract line starts with //@.
+
+// ---- C04: exact quantities survive display formats ----
+// dscale(x) = the number of decimals the value x needs. Rendering or rounding to n places is lossless iff dscale(x) <= n;
+// under property C04 every StringFixed / Round call raises that as an obligation (lossless.decimal[...]).
+
+//@ func FormatNumber
+//@   props C04 C06
+//@   requires format.DecimalPlaces >= 0 && format.DecimalPlaces < 2147483648
+//@   loop 1 invariant len(intPart) >= 0
+//@   loop 1 decreases len(intPart)
+
+//@ func formatAmountQuantity
+//@   props C04 C06
+//@   ensures [nilcase] amount == nil ==> result == ""
